@@ -1,0 +1,70 @@
+//go:build verif
+
+// Contracts for govc (/verif): C05, assumed contracts of the crypto callees of common validation. Comment-only file.
+// None of these functions writes memory that existed before the call; those that can panic say on what.
+
+package crypto
+
+//@ uninterp CanonicalScalarKey(k Key) bool
+//@ uninterp ValidPoint(k Key) bool
+
+//@ -- CheckKey decodes the point and reports the error: total.
+//@ assume func (k Key) CheckKey
+//@   pure
+//@   ensures result <==> ValidPoint(k)
+
+//@ -- Public panics on a non-canonical scalar (SetCanonicalBytes error).
+//@ assume func (k Key) Public
+//@   panics when !CanonicalScalarKey(k)
+//@   modifies nothing
+
+//@ -- NewKeyFromSeed(64 bytes): SetUniformBytes never fails on 64 bytes and yields a reduced (canonical) scalar.
+//@ assume func (k Key) DeterministicHashDerive
+//@   modifies nothing
+//@   ensures CanonicalScalarKey(result)
+
+//@ assume func (k Key) String
+//@   pure
+
+//@ assume func (k Key) HasValue
+//@   pure
+//@   ensures result <==> exists i int :: 0 <= i && i < 32 && k[i] != 0
+
+//@ assume func (h Hash) String
+//@   pure
+
+//@ assume func (s Signature) String
+//@   pure
+
+//@ assume func (h Hash) ForNetwork
+//@   modifies nothing
+
+//@ assume func Sha256Hash(data)
+//@   modifies nothing
+
+//@ -- Verify: SetUniformBytes on the 64-byte digest cannot fail; undecodable key / signature are reported as false. Total for a non-nil receiver.
+//@ assume func (publicKey *Key) Verify(message, sig)
+//@   requires publicKey != nil
+//@   modifies nothing
+
+//@ -- BatchVerify: empty / unequal lengths / nil elements are rejected (false) before any dereference. Total.
+//@ assume func BatchVerify(msg, keys, sigs)
+//@   modifies nothing
+
+//@ -- AggregateVerify: nil signature, empty / unordered / out-of-range signers, nil or undecodable publics are reported as errors. Total.
+//@ assume func AggregateVerify(sig, publics, signers, message)
+//@   modifies nothing
+
+//@ -- KeyMultPubPriv panics on an undecodable point or a non-canonical scalar.
+//@ assume func KeyMultPubPriv(pub, priv)
+//@   requires pub != nil && priv != nil
+//@   panics when !ValidPoint(*pub) || !CanonicalScalarKey(*priv)
+//@   modifies nothing
+
+//@ -- ViewGhostOutputKey(P, a, R, i) = P - Hs(a*R, i)*G: panics via KeyMultPubPriv(R, a) and on an undecodable P.
+//@ assume func ViewGhostOutputKey(P, a, R, outputIndex)
+//@   requires P != nil && a != nil && R != nil
+//@   panics when !ValidPoint(*R) || !CanonicalScalarKey(*a) || !ValidPoint(*P)
+//@   modifies nothing
+//@   fresh
+//@   ensures result != nil
